@@ -273,25 +273,33 @@ def replaceWithMask (arr : PStruct α) (mask : List Bool) (ty : List (String × 
   let bro := PStruct.ofScalars ty (vidx.map fun i => (value.getD i none))
   pure (PStruct.ifElse mask bro arr)
 
+/-- the mask with exactly the positions `ps` set (`np_mask[key] = True`) -/
+def setAt (n : Nat) (ps : List Nat) : List Bool := (List.range n).map fun i => ps.contains i
+
+/-- `np.unique(key)`: sorted, duplicates dropped -/
+def sortedUnique (ps : List Nat) : List Nat := dedupSorted (ps.mergeSort (· ≤ ·))
+
+/-- integer positions (int, slice and integer-array keys): the mask and
+    `np.unique(key, return_index=True)[1]` — for each distinct position in ascending order, the
+    index of its first occurrence in the key -/
+def fromPositions (n : Nat) (ps : List Nat) : List Bool × Option (List Nat) :=
+  (setAt n ps, some ((sortedUnique ps).map (firstIndexOf ps)))
+
 /-- the target mask of an assignment and, for positional keys, the order in which the values are
-    consumed (`np.unique(key, return_index=True)`): ext_array.py `__setitem__`, first half -/
+    consumed: ext_array.py `__setitem__`, first half -/
 def setItemMask (n : Nat) (k : Key) : R (List Bool × Option (List Nat)) :=
-  let setAt (ps : List Nat) : List Bool := (List.range n).map fun i => ps.contains i
-  -- integer positions (int, slice and integer-array keys): `np.unique(key, return_index=True)`
-  let fromPositions (ps : List Nat) : List Bool × Option (List Nat) :=
-    (setAt ps, some ((dedupSorted (ps.mergeSort (· ≤ ·))).map (firstIndexOf ps)))
   match k with
   | .int i => match normPos n i with
     | none => .error .indexError
-    | some j => pure (fromPositions [j])
+    | some j => pure (fromPositions n [j])
   | .slice a b st => do
     let (a', b', st') ← sliceIndices n a b st
-    pure (fromPositions (rangeList a' b' st'))
+    pure (fromPositions n (rangeList a' b' st'))
   | .mask m => if m.length ≠ n then .error .indexError else pure (m, none)
   | .ints is =>
     let idx := is.map (normPos n)
     if idx.any Option.isNone then .error .indexError
-    else pure (fromPositions (idx.filterMap id))
+    else pure (fromPositions n (idx.filterMap id))
 
 /-- `replace_with_mask` on the combined storage, then the validated replacement of the array's
     data (`_replace_chunked_array(..., validate=True)`): ext_array.py `__setitem__`, last line -/
@@ -316,14 +324,19 @@ def setItemReorder (argsort : Option (List Nat)) (vals : List (PScalar α)) : R 
     if as.any (· ≥ vals.length) then .error .indexError
     else pure (as.map fun i => vals.getD i none)
 
-/-- `__setitem__` (ext_array.py:267-320). -/
-def NArr.setItem (c : PCol α) (k : Key) (v : SetVal α) : R (PCol α) := do
-  let (mask, argsort) ← setItemMask c.len k
-  if (match k with | .ints is => is.isEmpty | .slice _ _ _ => ¬ mask.any id | _ => false) then return c
+/-- `__setitem__` once the key is a mask (+ value order): nothing selected, nothing to assign;
+    otherwise box the value, reorder it, replace and validate -/
+def setItemApply (c : PCol α) (mask : List Bool) (argsort : Option (List Nat)) (v : SetVal α) : R (PCol α) := do
   if mask.length = 0 then return c
   if ¬ mask.any id then return c
   let vals ← setItemReorder argsort (setItemVals c.ty (mask.filter id).length v)
   setItemFinish c mask vals
+
+/-- `__setitem__` (ext_array.py:267-320). -/
+def NArr.setItem (c : PCol α) (k : Key) (v : SetVal α) : R (PCol α) := do
+  let (mask, argsort) ← setItemMask c.len k
+  if (match k with | .ints is => is.isEmpty | .slice _ _ _ => ¬ mask.any id | _ => false) then return c
+  setItemApply c mask argsort v
 
 /-! ### field edits -/
 
